@@ -134,6 +134,24 @@ func gen(r *rand.Rand, thorough bool, i int) []string {
 		ops = append(ops, evLine(3, event.TagAddBridgeMint, client, "p",
 			fmt.Sprintf("UserID=s%s;MintNonce=n%d;Amount=n%d;Signers=l%s", client, nonce["m"+client], num(r, small), strings.Join(sg, ","))))
 	}
+	if i%12 == 5 {
+		// commit path with a fault: only bridge traffic (the only handlers sqlite can stand in for), at least one burn;
+		// the burn_tickets insert fails once, finalization retries
+		burn()
+		for k := 0; k < r.Intn(4); k++ {
+			if r.Intn(2) == 0 {
+				burn()
+			} else {
+				mint()
+			}
+		}
+		if r.Intn(5) == 0 {
+			// a block whose merged burn-ticket event carries no ticket: the handler refuses it (ErrInvalidEventData)
+			ops = []string{ops[0], evLine(3, event.TagAddBurnTicket, ident(r, "0x", 3), "s")}
+			return append(ops, "merge", "process ok")
+		}
+		return append(ops, "merge", "process fail", "process ok")
+	}
 	switch {
 	case profile < 4: // bridge
 		doHandle = true
@@ -270,6 +288,12 @@ var fixed = [][]string{
 	{"block 13 blk", "ev 3 64 i:0xA n", "merge", "handle"},
 	// empty slice of tickets: merged event with no payload, the handler refuses it
 	{"block 14 blk", "ev 3 64 i:0xA s", "merge", "handle"},
+	// the commit path: the burn-ticket insert fails once → the attempt fails and commits nothing, the retry stores the ticket
+	{"block 16 blk", "ev 3 65 i:c1 v Burner=sc1;Amount=n10", "ev 3 64 i:0xA p EthereumAddress=s0xA;Hash=sh1;Amount=n10;Nonce=n1",
+		"merge", "process fail", "process ok"},
+	// … and a merged burn-ticket event without a ticket makes the attempt fail (ErrInvalidEventData), nothing is committed
+	{"block 17 blk", "ev 3 64 i:0xA s", "merge", "process ok"},
+	{"block 18 blk", "ev 3 64 i:0xA p EthereumAddress=s0xA;Hash=sh1;Amount=n10;Nonce=n1", "process ok", "process bogus"},
 	// error and untyped events are dropped, chain events and TagUniqueAddress bypass
 	{"block 15 blk", "ev 1 64 i:0xA p EthereumAddress=s0xA;Hash=sh1;Amount=n10;Nonce=n1", "ev 0 65 i:c v Burner=sc;Amount=n1",
 		"ev 2 65 i:c v Burner=sc;Amount=n1", "ev 3 56 i:u v UserID=su", "ev 4 65 i:c v Burner=sc;Amount=n1", "merge"},
@@ -401,7 +425,81 @@ func parsePairs(s string) map[string]uint64 {
 // blocks carry. For every additive tag: what reaches the handler is what was emitted (as a multiset for the tags the
 // property lists one row or one count per event; as per-field totals for the tags the mergers sum). For the bridge
 // handlers: one burn-ticket row per burn, and every burn/mint amount in the totals of the id it names.
+// oracleCommit: the commit path. A handler failure (the injected fault on the burn_tickets insert, or a merged
+// burn-ticket event the handler refuses) must make the attempt report failure and commit NOTHING (finalization
+// retries the block); the retry without the fault must store the ticket.
+func oracleCommit(ops, outs []string) *corr.Violation {
+	mk := func(sig, msg string) *corr.Violation {
+		return &corr.Violation{Signature: "C20:" + sig, Message: msg, Ops: ops, Impl: outs}
+	}
+	parse := func(s string) (e, t, n int, ok bool) {
+		if _, err := fmt.Sscanf(s, "err=%d tickets=%d events=%d", &e, &t, &n); err != nil {
+			return 0, 0, 0, false
+		}
+		return e, t, n, true
+	}
+	goodTickets, emptyTicketEvent, wellTyped := 0, false, true
+	pt, pn := 0, 0
+	failedBefore := false
+	for i, op := range ops {
+		w := strings.Fields(op)
+		if len(w) == 0 {
+			continue
+		}
+		switch w[0] {
+		case "block":
+			goodTickets, emptyTicketEvent, wellTyped, pt, pn, failedBefore = 0, false, true, 0, 0, false
+		case "ev":
+			e, ok := parseEv(w)
+			if !ok || outs[i] != "ok" {
+				continue
+			}
+			if e.typ == int(event.TypeStats) && e.tag == event.TagAddBurnTicket {
+				switch {
+				case e.dk == "v" || e.dk == "p":
+					goodTickets++
+				case e.dk == "s" && len(e.items) == 0:
+					emptyTicketEvent = true
+				default:
+					wellTyped = false
+				}
+			} else if e.dk != "v" && e.dk != "p" {
+				wellTyped = false
+			}
+		case "process":
+			if len(w) != 2 || !wellTyped {
+				continue
+			}
+			e, t, n, ok := parse(outs[i])
+			if !ok {
+				continue
+			}
+			switch {
+			case w[1] == "fail" && goodTickets > 0 && !emptyTicketEvent:
+				if e != 1 || t != pt || n != pn {
+					return mk("handler-error-swallowed-block-committed", fmt.Sprintf("op %d: the burn_tickets insert failed, yet ProcessEvents answered %q (before: tickets=%d events=%d): the failed block was committed and will not be retried", i, outs[i], pt, pn))
+				}
+				failedBefore = true
+			case w[1] == "ok" && emptyTicketEvent && goodTickets == 0:
+				if e != 1 || t != pt || n != pn {
+					return mk("handler-error-swallowed-block-committed", fmt.Sprintf("op %d: the burn-ticket handler refused the event (ErrInvalidEventData), yet ProcessEvents answered %q", i, outs[i]))
+				}
+			case w[1] == "ok" && goodTickets > 0 && !emptyTicketEvent && failedBefore:
+				if e != 0 || t <= pt {
+					return mk("retry-does-not-store-ticket", fmt.Sprintf("op %d: retry after the failed attempt answered %q (before: tickets=%d)", i, outs[i], pt))
+				}
+				failedBefore = false
+			}
+			pt, pn = t, n
+		}
+	}
+	return nil
+}
+
 func oracle(ops, outs []string) *corr.Violation {
+	if v := oracleCommit(ops, outs); v != nil {
+		return v
+	}
 	mk := func(sig, msg string) *corr.Violation {
 		return &corr.Violation{Signature: "C20:" + sig, Message: msg, Ops: ops, Impl: outs}
 	}
